@@ -7,6 +7,7 @@ import (
 	"path/filepath"
 	"sort"
 	"strings"
+	"syscall"
 
 	apkfs "chainguard.dev/apko/pkg/apk/fs"
 )
@@ -220,4 +221,205 @@ func dfShort(r string) string {
 		return r[:1]
 	}
 	return r
+}
+
+// ---------------------------------------------------------------------------------------------
+// kind dirfs-hl: hard-link groups on DirFS against the Lean file-system model.
+//
+// Inside the envelope below DirFS must be observationally the model's memfs (which keeps content in the
+// inode, so every name of an inode reads what was last written through any of them): directories and
+// regular files only (no symbolic links, no dotted names, no directory is removed), permissions that
+// leave the files readable, at most one open handle at a time (opened, written sequentially, closed).
+// Every write path is exercised on names that have other names: WriteFile on an existing name,
+// OpenFile + Write (with and without O_TRUNC / O_APPEND), Create.  After every group of operations
+//   - hl:       the view ON DISK of every name of the alphabet (os.Lstat / os.SameFile / Nlink / os.ReadFile
+//               of the disk paths) must be the model's link structure: which names share an inode, how many
+//               names the inode has, its size and bytes;
+//   - readfile / stat of every name through the FS interface must be the model's answer.
+// Results are compared as values (Go = Impl = Spec); errors are compared as "failed" (the host's errno for
+// a failed call is not modelled), which makes failure atomicity part of the comparison: the model's failed
+// operations change nothing, and everything observable is read back after them.
+
+var hlFiles = []string{"f", "a/f", "a/b/g", "c/f", "c/h"}
+var hlExtra = []string{"h1", "a/h2", "c/h3", "a/b/h4"}
+var hlNames = append(append([]string{}, hlFiles...), hlExtra...)
+var hlWriteFlags = []int{os.O_WRONLY, os.O_RDWR, os.O_WRONLY | os.O_TRUNC, os.O_RDWR | os.O_TRUNC, os.O_RDWR | os.O_CREATE,
+	os.O_WRONLY | os.O_CREATE | os.O_TRUNC, os.O_WRONLY | os.O_APPEND, os.O_RDWR | os.O_APPEND | os.O_CREATE}
+
+func genDirfsHLCase(r *Rng) fsCase {
+	c := fsCase{Backend: "dirfs", Kind: "dirfs-hl"}
+	c.Ops = append(c.Ops, fsOp{K: "mkdirall", P: "a/b", N: 0o755})
+	if r.Chance(80) {
+		c.Ops = append(c.Ops, fsOp{K: "mkdir", P: "c", N: 0o755})
+	}
+	probe := func() {
+		c.Ops = append(c.Ops, fsOp{K: "hl", D: strings.Join(hlNames, ",")})
+		for _, p := range hlNames {
+			c.Ops = append(c.Ops, fsOp{K: "readfile", P: p}, fsOp{K: "stat", P: p})
+		}
+	}
+	// most sequences start with a file that has a second name
+	if r.Chance(70) {
+		old := Pick(r, hlFiles)
+		c.Ops = append(c.Ops, fsOp{K: "writefile", P: old, D: Pick(r, fsData), N: 0o644}, fsOp{K: "link", P: Pick(r, hlExtra), Q: old})
+		probe()
+	}
+	groups := r.Range(4, 14)
+	for g := 0; g < groups; g++ {
+		p := Pick(r, hlNames)
+		switch k := r.Intn(100); {
+		case k < 30:
+			c.Ops = append(c.Ops, fsOp{K: "writefile", P: p, D: Pick(r, fsData), N: Pick(r, []int{0o644, 0o600, 0o755})})
+		case k < 50:
+			c.Ops = append(c.Ops, fsOp{K: "link", P: Pick(r, hlNames), Q: Pick(r, append(append([]string{}, hlNames...), "a", "nope"))})
+		case k < 72:
+			h := countOpens(c.Ops)
+			c.Ops = append(c.Ops, fsOp{K: "open", P: p, M: Pick(r, hlWriteFlags), N: Pick(r, []int{0o644, 0o600})})
+			for j := r.Range(0, 2); j > 0; j-- {
+				c.Ops = append(c.Ops, fsOp{K: "write", H: h, D: Pick(r, fsData)})
+			}
+			c.Ops = append(c.Ops, fsOp{K: "close", H: h})
+		case k < 80:
+			h := countOpens(c.Ops)
+			c.Ops = append(c.Ops, fsOp{K: "create", P: p})
+			if r.Bool() {
+				c.Ops = append(c.Ops, fsOp{K: "write", H: h, D: Pick(r, fsData)})
+			}
+			c.Ops = append(c.Ops, fsOp{K: "close", H: h})
+		case k < 86:
+			h := countOpens(c.Ops)
+			c.Ops = append(c.Ops, fsOp{K: "open", P: p, M: os.O_RDONLY, N: 0o644}, fsOp{K: "read", H: h, N: 100}, fsOp{K: "close", H: h})
+		case k < 94:
+			c.Ops = append(c.Ops, fsOp{K: "remove", P: p})
+		case k < 97:
+			c.Ops = append(c.Ops, fsOp{K: "chmod", P: p, N: Pick(r, []int{0o644, 0o600, 0o755, 1<<23 | 0o755})})
+		default:
+			c.Ops = append(c.Ops, fsOp{K: "readdir", P: Pick(r, []string{".", "a", "a/b", "c"})})
+		}
+		probe()
+	}
+	return c
+}
+
+// hlDiskView: what the host file system says about the disk paths of the names
+func hlDiskView(base string, names []string) string {
+	infos := make([]fs.FileInfo, len(names))
+	parts := make([]string, len(names))
+	for i, n := range names {
+		fi, err := os.Lstat(filepath.Join(base, n))
+		if err != nil || !fi.Mode().IsRegular() {
+			parts[i] = "-"
+			continue
+		}
+		infos[i] = fi
+		first := i
+		for j := 0; j < i; j++ {
+			if infos[j] != nil && os.SameFile(infos[j], fi) {
+				first = j
+				break
+			}
+		}
+		nlink := uint64(0)
+		if st, ok := fi.Sys().(*syscall.Stat_t); ok {
+			nlink = uint64(st.Nlink)
+		}
+		b, err := os.ReadFile(filepath.Join(base, n))
+		if err != nil {
+			parts[i] = "!" + fsErr(err)
+			continue
+		}
+		parts[i] = fmt.Sprintf("%d:%d:%d:%s", first, nlink, fi.Size(), hx(string(b)))
+	}
+	return "g" + strings.Join(parts, "+")
+}
+
+func hlStat(fi fs.FileInfo, withName bool) string {
+	d := "0"
+	if fi.IsDir() {
+		d = "1"
+	}
+	size := fi.Size()
+	if fi.IsDir() {
+		size = 0 // the size of a directory is the host's business
+	}
+	s := fmt.Sprintf("%d/%d/%s", size, uint32(fi.Mode()), d)
+	if withName {
+		s = hx(fi.Name()) + "/" + s
+	}
+	return s
+}
+
+func runDirfsHLCase(c fsCase) []Step {
+	w := newWorld("dirfs")
+	defer os.RemoveAll(filepath.Dir(w.dir))
+	f := w.base
+	toks := make([]string, 0, len(c.Ops))
+	outs := make([]string, 0, len(c.Ops))
+	var descs []string
+	tags := map[string]struct{}{"backend:dirfs": {}, "kind:dirfs-hl": {}}
+	shared := false // some inode has two names right now
+	for _, o := range c.Ops {
+		toks = append(toks, o.token())
+		var r string
+		switch o.K {
+		case "hl":
+			r = hlDiskView(w.dir, strings.Split(o.D, ","))
+			shared = strings.Contains(r, ":2:") || strings.Contains(r, ":3:") || strings.Contains(r, ":4:")
+		case "stat":
+			if fi, err := f.Stat(o.P); err != nil {
+				r = "E"
+			} else {
+				r = "s" + hlStat(fi, false)
+			}
+		case "readdir":
+			if des, err := f.ReadDir(o.P); err != nil {
+				r = "E"
+			} else {
+				var parts []string
+				for _, de := range des {
+					fi, err := de.Info()
+					if err != nil {
+						parts = append(parts, hx(de.Name())+"!")
+						continue
+					}
+					parts = append(parts, hlStat(fi, true))
+				}
+				r = "e" + strings.Join(parts, "+")
+			}
+		default:
+			r = w.apply(o)
+			if len(r) > 0 && r[0] >= 'A' && r[0] <= 'Z' {
+				r = "E"
+			}
+		}
+		outs = append(outs, r)
+		if o.K != "hl" && !(len(descs) > 0 && (o.K == "readfile" || o.K == "stat") && len(c.Ops) > 40 && r == "E") {
+			descs = append(descs, o.desc()+"="+r)
+		}
+		if shared && r != "E" {
+			switch o.K {
+			case "writefile", "create", "remove", "link":
+				tags["hl-shared:"+o.K] = struct{}{}
+			case "open":
+				tags[fmt.Sprintf("hl-shared:open:%#x", o.M)] = struct{}{}
+			case "write":
+				tags["hl-shared:write"] = struct{}{}
+			}
+		}
+	}
+	var tl []string
+	for t := range tags {
+		tl = append(tl, t)
+	}
+	sort.Strings(tl)
+	desc := "dirfs (hard-link groups): " + strings.Join(descs, "; ")
+	if len(desc) > 6000 {
+		desc = desc[:6000] + "…"
+	}
+	return []Step{{
+		Line: "fs.dirhl\t" + strings.Join(toks, "\t"),
+		Go:   strings.Join(outs, ";"),
+		Desc: desc,
+		Tags: tl,
+	}}
 }
